@@ -40,6 +40,10 @@ type Program struct {
 	SSAPkgs  map[string]*ssa.Package
 	cg       *callgraph.Graph
 	allFuncs map[*ssa.Function]bool
+	// Renames relative to the anchor table (nil when none / no table)
+	Renames *Renames
+	// CanonicalFunc, when set, resolves "pkg.Name" / "pkg.Type.Method" through renames
+	FuncByID func(id string) *ssa.Function
 }
 
 // Load loads ./... in dir. Any load or type error is returned as an error: an analysis that could
@@ -109,6 +113,16 @@ func (p *Program) AllFunctions() map[*ssa.Function]bool {
 
 // Func finds a package-level function or a method "T.m" / "(*T).m" written as "T.m".
 func (p *Program) Func(pkgPath, name string) *ssa.Function {
+	if f := p.funcExact(pkgPath, name); f != nil {
+		return f
+	}
+	if p.FuncByID != nil {
+		return p.FuncByID(pkgPath + "." + name)
+	}
+	return nil
+}
+
+func (p *Program) funcExact(pkgPath, name string) *ssa.Function {
 	sp := p.SSAPkgs[pkgPath]
 	if sp == nil {
 		return nil
@@ -159,6 +173,15 @@ func (p *Program) Field(pkgPath, typ, field string) *types.Var {
 	for i := 0; i < st.NumFields(); i++ {
 		if st.Field(i).Name() == field {
 			return st.Field(i)
+		}
+	}
+	if p.Renames != nil {
+		if alias, ok := p.Renames.FieldAlias[pkgPath+"."+typ][field]; ok {
+			for i := 0; i < st.NumFields(); i++ {
+				if st.Field(i).Name() == alias {
+					return st.Field(i)
+				}
+			}
 		}
 	}
 	return nil
